@@ -82,6 +82,10 @@ func (s *scte35) parseTable(data []byte) error {
 		b, _ := buf.ReadByte()
 		return b
 	}
+	// a section of another table is reported as such, however short it is
+	if start := int(psi.PointerField(data)) + 1; start < len(data) && data[start] != 0xfc {
+		return gots.ErrUnknownTableID
+	}
 	if buf.Len() < int(uint16(psi.PointerField(data))+psi.PSIHeaderLen+15) {
 		return gots.ErrInvalidSCTE35Length
 	}
